@@ -12,6 +12,9 @@ G3 lon gate     every Some state carries |LON - reference longitude| <= HL with 
                 equals half of  Z / max(NL - i, 1)  (Z = 360 airborne, 90 surface; i the parity).
 G4 NL argument  the NL function is only called with the decoded latitude (the term returned), never with
                 the reference.
+G5 no wrap      the longitude tested by the gate is the decoded expression itself, not one shifted by a multiple of
+                360 before the test (a target just across the 180th meridian from its reference would be refused;
+                after seed C05-s4).
 Not decided: the 10 m exactness for references within range (a statement about the rounding of the
 floor() expression over a continuum); G2-G4 are its structural necessary conditions and decide the
 second sentence of the property (result absent or within half a zone of the reference).
@@ -165,6 +168,13 @@ def one(prog, rep, tier, fn, Z):
                     why = 'gate %s is not a function of NL(decoded latitude) alone (unknowns %d, parity %s)' % (A.show_term(g[1]), len(ats), par)
             rep.check(ok3, 'G3-lon-gate', key + '#lon-gate', body['file'], '%s returns a position whose longitude is not gated to half a zone of the reference: %s' % (fn, why),
                       sample={'fn': fn, 'parity': par, 'NL values evaluated': ncomb} if nsome <= 2 else None)
+            # G5
+            if lon[0] == 'F' and lon[4] is not None:
+                tl = lon[4]
+                shifted = tl[0] in ('Sub', 'Add') and len(tl) == 3 and any(x[0] == 'c' and abs(x[1]) in (360.0, 180.0, 720.0) for x in tl[1:])
+                rep.check(not shifted, 'G5-no-wrap-before-gate', key + '#raw-longitude', body['file'],
+                          '%s normalises the longitude (%s) before the half-zone test: a target across the 180th meridian from its reference is refused'
+                          % (fn, A.show_term(tl)[:90]), nontrivial=True)
             # G4
             used = [a for a in nl_args]
             rep.check(lat[0] == 'F' and lat[4] is not None and lat[4] in used, 'G4-nl-argument', key + '#nl-arg', body['file'],
